@@ -1342,6 +1342,12 @@ class MethodCtx:
                 if t == "B":
                     return x, "B"
                 _u(e, "bool() of a value that is neither a list nor a bool")
+            if f.id == "float" and len(e.args) == 1 and isinstance(e.args[0], ast.Constant) and e.args[0].value in ("inf", "Infinity"):
+                # float("inf"): no such value in an abstract arithmetic; an extra parameter stands for it (the tie lemmas
+                # show the branch that uses it is not taken under the constructor's guarantees, whatever its value)
+                nm = self.tr.gensym("float_inf")
+                self.oracle_params.append((nm, "F"))
+                return nm, "F"
             if f.id == "float" and len(e.args) == 1:
                 x, t = self.expr(e.args[0], env, "F")
                 if t == "F":
